@@ -6,10 +6,13 @@ reference it meets from the storage, and sets the export mark on every branch / 
                        no reference, and the key's path is `Marked` (no reference left, every branch carries the mark);
   * `mark_preserves` : a path that was marked stays marked (unconditionally);
   * `markAll_ok`     : the same for the loop over all requested keys;
-  * `getPath_marks`  : the node `GetPath` hands to `collectNodes` (`markedRoot`), root reference loaded first.
+  * `getPath_marks`  : the node `GetPath` hands to `collectNodes` (`markedRoot`), root reference loaded first; `markedRoot`
+                       is stated with the sequential strategy, Verif.Lemmas.WmptMarkPar shows the per-branch parallel
+                       one yields the same node.
 Core Lean only.
 -/
 import Verif.Lemmas.WmptExportDefs
+import Verif.Lemmas.WmptMarkPar
 namespace Verif.Wmpt
 namespace Mark
 open RepOps
@@ -297,30 +300,34 @@ variable (H : Bytes → Bytes)
 theorem getPath_of_markedRoot (t : WT) (keys : List (List Nib)) (n' : WN) (h : markedRoot t keys = some n') :
     getPath H t keys =
       ({ t with root := (collectNodes H n').1 }, .ok (Cbor.encTrie (collectNodes H n').2)) := by
-  unfold markedRoot at h
-  have e : getPath H t keys = (match loadRoot t with
-    | .err e => (t, .err e)
-    | .ok root =>
-      let m := markAll t.hasDb t.store root keys
-      match m.err with
-      | some .kvNotFound => ({ t with root := m.node }, .err .notFound)
-      | some e => ({ t with root := m.node }, .err e)
+  -- the strategy `getPath` takes is irrelevant for a successful marking (`getPath_strategy_irrelevant`)
+  have hseq : getPathSeq H t keys =
+      ({ t with root := (collectNodes H n').1 }, .ok (Cbor.encTrie (collectNodes H n').2)) := by
+    unfold markedRoot at h
+    have e : getPathSeq H t keys = (match loadRoot t with
+      | .err e => (t, .err e)
+      | .ok root =>
+        let m := markAll t.hasDb t.store root keys
+        match m.err with
+        | some .kvNotFound => ({ t with root := m.node }, .err .notFound)
+        | some e => ({ t with root := m.node }, .err e)
+        | none =>
+          let c := collectNodes H m.node
+          ({ t with root := c.1 }, .ok (Cbor.encTrie c.2))) := rfl
+    rw [e]
+    cases hl : loadRoot t with
+    | err e => rw [hl] at h; cases h
+    | ok root =>
+      rw [hl] at h
+      simp only at h ⊢
+      cases hm : (markAll t.hasDb t.store root keys).err with
+      | some e => rw [hm] at h; cases h
       | none =>
-        let c := collectNodes H m.node
-        ({ t with root := c.1 }, .ok (Cbor.encTrie c.2))) := rfl
-  rw [e]
-  cases hl : loadRoot t with
-  | err e => rw [hl] at h; cases h
-  | ok root =>
-    rw [hl] at h
-    simp only at h ⊢
-    cases hm : (markAll t.hasDb t.store root keys).err with
-    | some e => rw [hm] at h; cases h
-    | none =>
-      rw [hm] at h
-      simp only [Option.some.injEq] at h
-      subst h
-      rfl
+        rw [hm] at h
+        simp only [Option.some.injEq] at h
+        subst h
+        rfl
+  rw [(getPath_strategy_irrelevant H t keys).2.1 _ (by rw [hseq]), hseq]
 
 variable {H}
 
